@@ -72,8 +72,23 @@ func evalC11(c c11Case) ([]c11Finding, error) {
 	for i, l := range c.Lat {
 		m.Add(&vegeta.Result{Latency: time.Duration(l), Code: 200, Timestamp: time.Unix(1, 0)})
 		if closes[i+1] {
+			// the HDR reporter asks the estimator itself and does not need a Close: rendered before and after it
+			if i+1 >= 2 {
+				mx := c.Lat[0]
+				for _, x := range c.Lat[:i+1] {
+					mx = max(mx, x)
+				}
+				if err := c11CheckHDR(hdr, fmt.Sprintf("%s/%s n=%d, rendered after %d additions, before a Close", c.Family, c.Order, n, i+1), mx); err != nil {
+					return nil, err
+				}
+			}
 			m.Close()
 			_ = hdr.Report(io.Discard)
+		}
+	}
+	if len(c.Closes) > 0 && n >= 2 {
+		if err := c11CheckHDR(hdr, fmt.Sprintf("%s/%s n=%d, rendered after all additions, before the final Close", c.Family, c.Order, n), slicesMax(c.Lat)); err != nil {
+			return nil, err
 		}
 	}
 	m.Close()
@@ -121,6 +136,9 @@ func evalC11(c c11Case) ([]c11Finding, error) {
 			// (1-q)*n above), neighbouring centroids overlap, and the estimate interpolates between their centres:
 			// rank errors of up to about 2.5 such widths occur, 3.5 are covered by the entry.
 			if need <= 1+3.5*math.Pi/100*math.Sqrt(p.q*(1-p.q))*float64(n) && vh.Known("tdigest-resolution") {
+				if w := (need - 1) / (math.Pi / 100 * math.Sqrt(p.q*(1-p.q)) * float64(n)); w > 2.8 {
+					vh.Note("C11 known finding tdigest-resolution: rank error of %.2f centroid widths (entry covers 3.5): %s", w, msg)
+				}
 				known = append(known, c11Finding{id: "tdigest-resolution", q: p.q, need: need, tau: tau, detail: msg})
 				continue
 			}
@@ -128,9 +146,18 @@ func evalC11(c c11Case) ([]c11Finding, error) {
 		}
 	}
 	// HDR histogram report: values never decrease as the percentile grows
+	if err := c11CheckHDR(hdr, head, sorted[n-1]); err != nil {
+		return known, err
+	}
+	return known, nil
+}
+
+// c11CheckHDR renders the HDR histogram report and checks its rows: the whole ladder 0..1, values and percentiles
+// that never decrease, nothing above the maximum latency.
+func c11CheckHDR(hdr vegeta.Reporter, head string, max int64) error {
 	var buf bytes.Buffer
 	if err := hdr.Report(&buf); err != nil {
-		return known, fmt.Errorf("%s: hdrplot reporter: %v", head, err)
+		return fmt.Errorf("%s: hdrplot reporter: %v", head, err)
 	}
 	sc := bufio.NewScanner(&buf)
 	rows, prevV, prevQ := 0, math.Inf(-1), math.Inf(-1)
@@ -143,28 +170,28 @@ func evalC11(c c11Case) ([]c11Finding, error) {
 		v, e1 := strconv.ParseFloat(f[0], 64)
 		q, e2 := strconv.ParseFloat(f[1], 64)
 		if e1 != nil || e2 != nil {
-			return known, fmt.Errorf("%s: hdrplot row does not parse: %q", head, sc.Text())
+			return fmt.Errorf("%s: hdrplot row does not parse: %q", head, sc.Text())
 		}
 		if rows == 0 {
 			firstQ = q
 		}
 		lastQ = q
 		if v < prevV {
-			return known, fmt.Errorf("%s: hdrplot value decreases from %f to %f at percentile %f", head, prevV, v, q)
+			return fmt.Errorf("%s: hdrplot value decreases from %f to %f at percentile %f", head, prevV, v, q)
 		}
 		if q < prevQ {
-			return known, fmt.Errorf("%s: hdrplot percentile column decreases at %f", head, q)
+			return fmt.Errorf("%s: hdrplot percentile column decreases at %f", head, q)
 		}
 		prevV, prevQ = v, q
 		rows++
 	}
 	if rows < 50 || firstQ != 0 || lastQ != 1 {
-		return known, fmt.Errorf("%s: hdrplot has %d rows from percentile %v to %v (want the whole ladder 0..1)", head, rows, firstQ, lastQ)
+		return fmt.Errorf("%s: hdrplot has %d rows from percentile %v to %v (want the whole ladder 0..1)", head, rows, firstQ, lastQ)
 	}
-	if maxMs := float64(sorted[n-1]) / 1e6; prevV > maxMs*(1+1e-9)+1e-6 {
-		return known, fmt.Errorf("%s: hdrplot top value %f ms exceeds the maximum latency %f ms", head, prevV, maxMs)
+	if maxMs := float64(max) / 1e6; prevV > maxMs*(1+1e-9)+1e-6 {
+		return fmt.Errorf("%s: hdrplot top value %f ms exceeds the maximum latency %f ms", head, prevV, maxMs)
 	}
-	return known, nil
+	return nil
 }
 
 type xorshift uint64
@@ -492,3 +519,11 @@ func TestC11PercentilesHuge(t *testing.T) {
 }
 
 func init() { vh.RegisterReplay("C11.huge", vh.Replayer(runC11Huge)) }
+
+func slicesMax(xs []int64) int64 {
+	m := xs[0]
+	for _, x := range xs {
+		m = max(m, x)
+	}
+	return m
+}
